@@ -5,13 +5,15 @@ import MesaModel.Proofs.DevsLive
 import MesaModel.Proofs.DevsOrder
 import MesaModel.Proofs.DevsDoomed
 import MesaModel.Proofs.DevsShared
+import MesaModel.Proofs.DevsRaise
 /-!
 # C14 — the simulators run each live event once, in (time, priority, FIFO) order
 
 Property theorems only (helper lemmas: `Proofs/Devs.lean`, model: `Model/Devs.lean`).
 `Reachable s`: every state reachable from a fresh simulator of either class by any interleaving of
 scheduling / cancelling / reference-dropping commands (issued at top level or from inside executing
-events), `setup`, `run_until` / `run_for` with a horizon not before the clock, `run_next_event`.
+events), `setup`, `run_until` / `run_for` with a horizon not before the clock, `run_next_event`, callables that raise
+(the run call is cut short, the program catches the exception — `caught` — and goes on: aborted states are reachable states).
 Event ids are handed out in scheduling order, so "(time, priority, id)" is (time, priority, FIFO).
 -/
 namespace Mesa.Devs
@@ -104,10 +106,10 @@ theorem C14_clock_monotone {s : Sim} (h : Reachable s) :
     `≤ T` pending (including events scheduled by the events it executed), and executed only events with
     time `≤ T`. -/
 theorem C14_run_until_post {s s' : Sim} {f : Nat} {T : Int} (h : Reachable s)
-    (hr : runUntil f s T = some s') :
+    (hr : runUntil f s T = some s') (hn : s'.raised = none) :
     s'.now = T ∧ (∀ y ∈ s'.pending, y.cancelled = false → T < y.time) ∧
     ∃ new, s'.log = s.log ++ new ∧ ∀ x ∈ new, x.clock ≤ T :=
-  runUntil_post (reachable_inv h).1 hr
+  runUntil_post (reachable_inv h).1 hr hn
 
 /-- Scheduling is rejected exactly when the time lies before the clock (`Past`) or, otherwise, has the
     wrong unit (`Unit`); a rejected call — caught by the caller — leaves the simulator unchanged. -/
@@ -131,8 +133,8 @@ theorem C14_schedule_rejects_exactly (s : Sim) (t d : Int) (p a : Nat) :
   · unfold schedRel; split
     · simp [*]
     · split <;> simp_all
-  · rintro ⟨err, h⟩; simp [doCmd, h]
-  · rintro ⟨err, h⟩; simp [doCmd, h]
+  · rintro ⟨err, h⟩; unfold doCmd; split <;> simp [doCmd1, h]
+  · rintro ⟨err, h⟩; unfold doCmd; split <;> simp [doCmd1, h]
 
 /-- Looking ahead shows the live events in the order they would execute: `peak_ahead n` is exactly what
     `n` successive pops would hand out, and that sequence is strictly increasing in (time, priority, FIFO). -/
@@ -250,15 +252,11 @@ theorem C14_spared_event_is_served_rel {s s₀ s' : Sim} {d : Int} {p a : Nat} (
     `t ≤ T` is in the execution log, with the clock at `t`.  With `C14_never_twice`: exactly once. -/
 theorem C14_spared_due_event_executed {s s₀ s' s'' : Sim} {t T : Int} {p a f : Nat} (h : Reachable s)
     (hs : schedAbs s t p a = .ok s₀) (hps : ProgsSpare s.nextTag s.nextTag s) (hr : ReachableSparing s.nextTag s.nextTag s₀ s')
-    (hT : s'.now ≤ T) (hrun : runUntil f s' T = some s'') (htT : t ≤ T) :
+    (hT : s'.now ≤ T) (hrun : runUntil f s' T = some s'') (hn : s''.raised = none) (htT : t ≤ T) :
     ∃ i, LogEntry.user i s.nextTag t ∈ s''.log := by
-  have h0 : Reachable s₀ := by
-    have : doCmd s (.schedAbs t p a) = s₀ := by simp [doCmd, hs]
-    rw [← this]
-    exact .cmd _ h
-  have h' : Reachable s' := reachableFrom_reachable h0 (reachableSparing_from hr)
+  have hw' : WF s' := reachableFrom_wf (schedAbs_wf (reachable_inv h).1 hs) (reachableSparing_from hr)
   have hserved := C14_spared_event_is_served hs hps (.until hr hT hrun)
-  obtain ⟨_, hpost, _⟩ := runUntil_post (reachable_inv h').1 hrun
+  obtain ⟨_, hpost, _⟩ := runUntil_post hw' hrun hn
   rcases hserved with ⟨e, he, _, _, _, h3, h4, _⟩ | hlog
   · have := hpost e he h4
     omega
@@ -293,15 +291,17 @@ theorem C14_shared_callable_event_is_served {s s₀ s' : Sim} {c : Nat} {d : Int
 /-- ... and `run_until(T)` executes it if it is due, although other events sharing its callable were cancelled. -/
 theorem C14_shared_due_event_executed {s s₀ s' s'' : Sim} {c : Nat} {d T : Int} {p f : Nat} (h : Reachable s)
     (hs : again s c d p = some (.ok s₀)) (hps : ProgsSpare s.nextTag c s) (hr : ReachableSparing s.nextTag c s₀ s')
-    (hT : s'.now ≤ T) (hrun : runUntil f s' T = some s'') (htT : s.now + d ≤ T) :
+    (hT : s'.now ≤ T) (hrun : runUntil f s' T = some s'') (hn : s''.raised = none) (htT : s.now + d ≤ T) :
     ∃ i, LogEntry.user i s.nextTag (s.now + d) ∈ s''.log := by
-  have h0 : Reachable s₀ := by
-    have : doCmd s (.again c d p) = s₀ := by simp [doCmd, hs]
-    rw [← this]
-    exact .cmd _ h
-  have h' : Reachable s' := reachableFrom_reachable h0 (reachableSparing_from hr)
+  have hw0 : WF s₀ := by
+    unfold again at hs
+    split at hs
+    · simp at hs
+    · simp only [Option.some.injEq] at hs
+      exact schedRel_wf (reachable_inv h).1 hs
+  have hw' : WF s' := reachableFrom_wf hw0 (reachableSparing_from hr)
   have hserved := C14_shared_callable_event_is_served hs hps (.until hr hT hrun)
-  obtain ⟨_, hpost, _⟩ := runUntil_post (reachable_inv h').1 hrun
+  obtain ⟨_, hpost, _⟩ := runUntil_post hw' hrun hn
   rcases hserved with ⟨e, he, _, _, _, h3, h4, _⟩ | hlog
   · have := hpost e he h4
     omega
@@ -322,16 +322,94 @@ theorem C14_collected_callable_never_runs {s s' : Sim} {c : Nat} (hc : c < s.nex
   have hd := hcol.dead e (popLive_mem hp).1 hu hf
   rw [exec_log]; unfold entryOf; rw [if_pos hd]; simp [popped]
 
+/-- **An event's weak reference is dead exactly when the program no longer holds its callable object** — in every reachable
+    state, for every pending user event (so events that share a callable are all alive or all dead); callable ids are tags that
+    have been handed out. -/
+theorem C14_weakref_dead_iff_callable_dropped {s : Sim} (h : Reachable s) :
+    (∀ x ∈ s.fns, x.1 < s.nextTag) ∧
+    (∀ e ∈ s.pending, e.isStep = false → e.fn < s.nextTag ∧ (e.dead = true ↔ s.fns.lookup e.fn = none)) ∧
+    ∀ e₁ ∈ s.pending, ∀ e₂ ∈ s.pending, e₁.isStep = false → e₂.isStep = false → e₁.fn = e₂.fn → e₁.dead = e₂.dead := by
+  have hi := reachable_fnInv h
+  refine ⟨hi.keys, hi.evs, ?_⟩
+  intro e₁ h₁ e₂ h₂ hu₁ hu₂ hf
+  have i₁ := (hi.evs e₁ h₁ hu₁).2
+  have i₂ := (hi.evs e₂ h₂ hu₂).2
+  rw [hf] at i₁
+  have hiff : e₁.dead = true ↔ e₂.dead = true := i₁.trans i₂.symm
+  cases hd₁ : e₁.dead <;> cases hd₂ : e₂.dead
+  · rfl
+  · rw [hd₁, hd₂] at hiff; exact absurd (hiff.mpr rfl) (by simp)
+  · rw [hd₁, hd₂] at hiff; exact absurd (hiff.mp rfl) (by simp)
+  · rfl
+
 /-- **Dropping a callable kills every pending event that shares it**: none of them is in the execution log of any state
     reachable afterwards (`C14_collected_never_executes` for all sharers at once). -/
 theorem C14_drop_kills_every_sharer {s s' : Sim} (h : Reachable s) {c : Nat} {e : Ev} (he : e ∈ s.pending)
     (hu : e.isStep = false) (hf : e.fn = c) (hr : ReachableFrom (dropFn s c) s') : e.id ∉ logIds s'.log := by
-  have h0 : Reachable (dropFn s c) := Reachable.cmd (.drop c) h
+  have ha0 : Acc (dropFn s c) := doCmd1_accH (reachable_inv h).2.1 (.drop c)
   have hmem : { e with dead := true } ∈ (dropFn s c).pending := by
     simp only [dropFn, List.mem_map]
     exact ⟨e, he, by simp [hu, hf]⟩
-  exact C14_collected_never_executes (e := { e with dead := true }) h0 hmem rfl hr
+  exact doomed_not_logged (reachableFrom_acc ha0 hr) (doomed_stays (Or.inl ⟨_, hmem, rfl, rfl⟩) hr)
 
+
+/-! ### callables that raise
+
+A callable (or the step body) may raise (`raise x`): the rest of its program does not run, `run_until` / `run_for` /
+`run_next_event` do not return normally — the exception reaches the program with its kind (`Sim.raised = some x`), which catches it
+(`caught`) and goes on.  All states on the way are `Reachable`, so every invariant above (sorted queue, accounting, never twice,
+clock monotone, once cancelled / collected never executed, at-least-once over `ReachableSparing`, which has the `caught` step too)
+holds in aborted states and across any number of exceptions.  Post-conditions of a run that *returns normally* carry the hypothesis
+`s'.raised = none`; what a run that is cut short leaves is stated here. -/
+
+/-- **What `run_until(T)` leaves when a callable raises `x`.**  The exception comes from the last event the run executed: that
+    event was alive and due, its execution is the last log entry, logged at the clock the run stopped at — the raising event's
+    time, `≤ T` —, everything executed before it is logged before it; the raising program (the step body for a step event)
+    contains that `raise x` (the kind is preserved); the raising event is consumed (no longer on the list), and nothing on the
+    list lies before the clock. -/
+theorem C14_run_until_aborted {s s' : Sim} {f : Nat} {T : Int} {x : Exc} (h : Reachable s) (hT : s.now ≤ T)
+    (h0 : s.raised = none) (hr : runUntil f s T = some s') (hx : s'.raised = some x) :
+    ∃ pre ent, s'.log = s.log ++ pre ++ [ent] ∧ ent.clock = s'.now ∧ s'.now ≤ T ∧ (∀ y ∈ pre, y.clock ≤ T) ∧
+      ((ent.isStep = true ∧ Cmd.raise x ∈ s.stepProg) ∨ (ent.isStep = false ∧ ∃ a, Cmd.raise x ∈ s.prog a)) ∧
+      ent.id ∉ ids s'.pending ∧ ∀ e ∈ s'.pending, s'.now ≤ e.time := by
+  obtain ⟨pre, ent, hlog, hclk, hle, hpre, hprog⟩ := runUntil_aborted h0 hr hx
+  have h' : Reachable s' := .until h hT hr
+  refine ⟨pre, ent, hlog, hclk, hle, hpre, hprog, ?_, (reachable_inv h').1.future⟩
+  intro hmem
+  have hacc := C14_exactly_once_accounting h' ent.id
+  have h1 : 0 < (ids s'.pending).count ent.id := List.count_pos_iff.mpr hmem
+  have h2 : 0 < (logIds s'.log).count ent.id := by
+    apply List.count_pos_iff.mpr
+    rw [hlog]; simp [logIds]
+  split at hacc <;> omega
+
+/-- **A raising event is executed exactly once.**  Whatever the program does after the exception reached it — catch it, schedule,
+    cancel, run again to the same or a later horizon, meet further exceptions —, the event that raised is never run again: in
+    every later state it occurs in the execution log exactly once and not on the list. -/
+theorem C14_raising_event_never_rerun {s s' s'' : Sim} {f : Nat} {T : Int} {x : Exc} (h : Reachable s) (hT : s.now ≤ T)
+    (h0 : s.raised = none) (hr : runUntil f s T = some s') (hx : s'.raised = some x) (hfrom : ReachableFrom s' s'') :
+    ∃ ent, s'.log.getLast? = some ent ∧ (logIds s''.log).count ent.id = 1 ∧ ent.id ∉ ids s''.pending := by
+  obtain ⟨pre, ent, hlog, _⟩ := runUntil_aborted h0 hr hx
+  obtain ⟨new, hnew⟩ := reachableFrom_log_grows hfrom
+  have h'' : Reachable s'' := reachableFrom_reachable (.until h hT hr) hfrom
+  have hacc := C14_exactly_once_accounting h'' ent.id
+  have h2 : 0 < (logIds s''.log).count ent.id := by
+    apply List.count_pos_iff.mpr
+    rw [hnew, hlog]; simp [logIds]
+  refine ⟨ent, by rw [hlog]; simp, ?_, ?_⟩
+  · split at hacc <;> omega
+  · intro hmem
+    have h1 : 0 < (ids s''.pending).count ent.id := List.count_pos_iff.mpr hmem
+    split at hacc <;> omega
+
+/-- **Resuming after an exception.**  The program catches the exception and calls `run_until(T)` again; if that call returns
+    normally the clock is `T`, no live event with time `≤ T` is left — the events that were still due when the first call was cut
+    short have been executed — and only events with time `≤ T` ran. -/
+theorem C14_resume_after_exception {s s' s'' : Sim} {f f' : Nat} {T : Int} (h : Reachable s) (hT : s.now ≤ T)
+    (hr : runUntil f s T = some s') (hr2 : runUntil f' (caught s') T = some s'') (hn : s''.raised = none) :
+    s''.now = T ∧ (∀ y ∈ s''.pending, y.cancelled = false → T < y.time) ∧
+    ∃ new, s''.log = s'.log ++ new ∧ ∀ y ∈ new, y.clock ≤ T :=
+  C14_run_until_post (s := caught s') (.caught (.until h hT hr)) hr2 hn
 
 /-! ### order of execution with nested scheduling
 
@@ -407,6 +485,21 @@ example : ProgsSpare 2 0 sq0 := by
   unfold Spares shProgQ
   split <;> simp
 example : ((runUntil 10 sq1 4096).map fun s => (s.log, s.gone)) = some ([.user 3 3 512, .user 2 2 2048], [0, 1]) := by decide
+
+/-- a callable that raises: program 1 schedules a follow-up, raises IndexError, and would schedule another one (which it never
+    does); `run_until(4096)` is cut short at 1024 with the exception pending, the raising event (id 0) consumed, the follow-up
+    (id 2) and the event of time 2048 (id 1) still on the list; the resumed call executes exactly those two -/
+def rsProg : Nat → List Cmd
+  | 1 => [.schedRel 512 5 0, .raise .index, .schedRel 0 5 0]
+  | _ => []
+def rs1 : Sim := doCmd (doCmd (init .devs rsProg []) (.schedAbs 1024 5 1)) (.schedAbs 2048 5 0)
+example : Reachable rs1 := .cmd _ (.cmd _ (.init _ _ _))
+example : ((runUntil 10 rs1 4096).map fun s => (s.raised, s.now, s.log.map (·.id), s.pending.map (·.id), s.nextId)) =
+    some (some .index, 1024, [0], [2, 1], 3) := by decide
+example : ((runUntil 10 rs1 4096).bind fun s => (runUntil 10 (caught s) 4096).map fun s => (s.raised, s.now, s.log.map (·.id), s.pending.map (·.id))) =
+    some (none, 4096, [0, 2, 1], []) := by decide
+example : ((resume 10 5 rs1 4096).map fun s => (s.now, s.log.map (·.id))) = some (4096, [0, 2, 1]) := by decide
+example : ((runUntilC 10 rs1 4096).map fun s => (s.now, s.log.map (·.id))) = some (4096, [0, 2, 1]) := by decide
 end Example
 
 end Mesa.Devs
